@@ -503,4 +503,32 @@ theorem signextend_spec_bits (a b : W) (ha : a.toNat < 31) (i : Nat) (hi : i < 2
       if i < 8 * a.toNat + 7 then b.getLsbD i else b.getLsbD (8 * a.toNat + 7) :=
   signextend_bits_spec a b ha i hi
 
+/-- EXP: the word-by-word square-and-multiply loop (with its early stop at the exponent's bit length)
+    computes a^b mod 2^256 for all operands. -/
+theorem exp_impl_eq_spec (a b : W) : expImpl a b = expSpec a b := by
+  unfold expImpl expSpec
+  have hl := toNat_eq_limbs b
+  have hlimb : ∀ w ∈ [limb b 0, limb b 1, limb b 2, limb b 3], w < 2 ^ 64 := by
+    intro w hw
+    simp only [List.mem_cons, List.mem_nil_iff, or_false] at hw
+    rcases hw with h | h | h | h <;> subst h <;> exact Nat.mod_lt _ (by omega)
+  have hrem : limbsVal [limb b 0, limb b 1, limb b 2, limb b 3] < 2 ^ (256 - leadingZeros b) := by
+    rw [← hl, leadingZeros_eq]
+    by_cases h0 : b.toNat = 0
+    · simp [h0]
+    · have hlog : Nat.log2 b.toNat < 256 := (Nat.log2_lt h0).mpr b.isLt
+      have e : 256 - (255 - Nat.log2 b.toNat) = Nat.log2 b.toNat + 1 := by omega
+      simp only [h0, if_false, e]
+      exact Nat.lt_log2_self
+  simp only []
+  rw [expOuter_spec _ _ _ _ hlimb hrem, ← hl, BitVec.one_mul]
+  apply BitVec.eq_of_toNat_eq
+  rw [toNat_wpow, toNat_ofN]
+
+/-- the executable form of the EXP specification used by the driver (modular power by halving the exponent)
+    equals a^b mod 2^256. -/
+theorem expSpecExec_eq_spec (a b : W) : expSpecExec a b = expSpec a b := by
+  unfold expSpecExec expSpec ofN
+  rw [powMod_eq]
+
 end BA.Evm
